@@ -16,7 +16,7 @@ CONSTANTS MaxBlocks, Diffs, Thrs, Nets, MaxNext
 
 MCInit ==
   /\ uni = [par |-> <<0>>, diff |-> <<1>>, time |-> <<0>>, btx |-> <<<<1>>>>, tin |-> <<<<>>>>,
-            tout |-> <<<<[a |-> 0, v |-> 0]>>>>, vsz |-> <<100>>]
+            tout |-> <<<<[a |-> 0, v |-> 0]>>>>, vsz |-> <<100>>, h |-> <<0>>]
   /\ \E net \in Nets, thr \in Thrs :
        LET c == [net |-> net, thr |-> thr, api |-> TRUE, syncing |-> TRUE, gate |-> TRUE, lazy |-> TRUE, burn |-> FALSE,
                 fees |-> [ub |-> 0, ur |-> 0, um |-> 0, bal |-> 0, balm |-> 0, pct |-> 0, pctm |-> 0,
@@ -36,7 +36,8 @@ Mine(p, d) ==
                 btx  |-> Append(uni.btx, <<t>>),
                 tin  |-> Append(uni.tin, <<>>),
                 tout |-> Append(uni.tout, <<[a |-> 1, v |-> 5]>>),
-                vsz  |-> Append(uni.vsz, 100)]
+                vsz  |-> Append(uni.vsz, 100),
+                h    |-> Append(uni.h, uni.h[p] + 1)]
   /\ UNCHANGED <<cfg, stable, tree, ing, next, sync, fee, cnt, now, known, flight, walks>>
 
 Items == {[b |-> b, as |-> "valid"] : b \in AllBlocks}
